@@ -272,7 +272,7 @@ struct Explorer {
             if (now() > deadline && incomplete) { R.deadlineHit = true; break; }
             if (incomplete && R.capped) break;
             R.depthCompleted = level;
-            if (R.samples.size() < 6) for (size_t i = 0; i < frontier.size() && R.samples.size() < 6; i += std::max<size_t>(1, frontier.size() / 3)) R.samples.push_back(frontier[i]);
+            { R.samples.push_back(frontier[frontier.size() / 2]); if (frontier.size() > 2) R.samples.push_back(frontier.back()); while (R.samples.size() > 8) R.samples.erase(R.samples.begin()); }   // the deepest levels' middle / last histories
             if (!expand) break;
             if (!transcriptPath.empty()) {   // C19: one line per transition, in deterministic BFS order
                 FILE* tf = fopen(transcriptPath.c_str(), "a");
